@@ -52,6 +52,9 @@ def scenarios(tier):
     for ev in ('none', 'connect'):
         for tail in ('check', 'incr-od', 'die-od'):
             out.append(Scenario('ondemand', ev=ev, tail=tail, nodet=True))
+    # a stop / rm that completes while the socket-event start of an on-demand watcher is between two spawns
+    for op in ('stop', 'rm'):
+        out.append(Scenario('ondemand-race', op=op, E=1))
     # phase two: stopped stays stopped
     maxlen = 2 if tier == 'quick' else 3
     ops = [o for o in TAIL_OPS if o != 'die-none']
@@ -64,6 +67,8 @@ def scenarios(tier):
 def bound(tier, scn):
     if scn.name == 'tail':
         return 0
+    if scn.name == 'ondemand-race':
+        return 1
     if tier == 'quick':
         return 2 if (scn.name == 'op' and scn.n == 1 and not scn.inflight_kill) else 1
     return 2
@@ -91,6 +96,8 @@ def run(scn, ch):
         return _run_tail(scn, ch, res)
     if scn.name == 'ondemand':
         return _run_ondemand(scn, ch, res)
+    if scn.name == 'ondemand-race':
+        return _run_ondemand_race(scn, ch, res)
     raise ValueError(scn.name)
 
 
@@ -408,3 +415,77 @@ def _run_ondemand(scn, ch, res):
             client.close()
         if not world.closed:
             world.close()
+
+
+def _run_ondemand_race(scn, ch, res):
+    """The start of an on-demand watcher triggered by a socket event does not hold the exclusive slot: a stop / rm can
+    complete between two of its (warmup-paced) spawns."""
+    import socket
+    from circus.sockets import CircusSocket
+    from vt.events import Req
+    sock = CircusSocket.load_from_config({'name': 'web', 'host': '127.0.0.1', 'port': '0'})
+    world = World(ch, [WSpec('od', numprocesses=3, graceful_timeout=G, warmup_delay=0.25, on_demand=True,
+                             use_sockets=True, cmd='worker --fd $(circus.sockets.web)')], sockets=[sock])
+    client = None
+    state = {'req': None}
+
+    def menu(w):
+        if state['req'] is not None:
+            return []
+        props = {'name': 'od'}
+        return [_Op(Req(scn.op, **props), state)]
+    try:
+        world.boot()
+        world.run(until=lambda w: w.boot_future.done(), horizon=5)
+        world.settle(1)
+        od = world.watcher('od')
+        client = socket.socket(socket.AF_INET, socket.SOCK_STREAM)
+        client.settimeout(0.5)
+        lsock = world.arbiter.sockets['web']
+        client.connect(lsock.getsockname())
+        # run until the first worker exists; it accepts the connection (so the socket is no longer readable)
+        world.run(until=lambda w: len(w.procs_of('od')) >= 1, horizon=2.5)
+        try:
+            conn, _ = lsock.accept()
+            conn.close()
+        except OSError:
+            pass
+        t0 = CLOCK.now
+        # the window: the stop / rm may arrive at any loop-iteration boundary of the next 1.2 s
+        world.run(horizon=1.2, menu=menu)
+        if state['req'] is None:
+            res.ev('C02.no_stop_injected', True)
+            res.outcome = _outcome(world)
+            return finish(world, res)
+        rq = state['req'].request
+        res.check('C02.accepted', rq.ok() or True, '', where='controller')
+        world.run(until=lambda w: w.slot() is None and not w.stopping_processes(), horizon=3)
+        world.settle(3)
+        alive = [p.pid for p in world.procs_of('od') if p.state == RUNNING]
+        if rq.ok():
+            res.check('C02.no_survivor', not alive,
+                      lambda: '%s od completed while its socket-event start was between two spawns; afterwards workers %s run '
+                      '(status %s) although no request or socket event started them' % (scn.op, alive, od.status()),
+                      where='watcher.spawn_processes/on-demand-start-outlives-stop')
+            res.check('C02.status_stopped', od.status() == 'stopped',
+                      lambda: 'status %r after %s' % (od.status(), scn.op), where='watcher.spawn_processes/on-demand-start-outlives-stop')
+        res.outcome = _outcome(world)
+        return finish(world, res)
+    except Abort as e:
+        res.check('C02.completes', False, 'aborted: %s at %s' % (e, CLOCK.blocked_where), where=world.blocked_site())
+        return finish(world, res, aborted=str(e))
+    finally:
+        if client is not None:
+            client.close()
+        if not world.closed:
+            world.close()
+
+
+class _Op(object):
+    def __init__(self, ev, state):
+        self.ev, self.state = ev, state
+        self.label = ev.label
+
+    def apply(self, world):
+        self.state['req'] = self.ev
+        self.ev.apply(world)
